@@ -126,6 +126,9 @@ func RunOptics(t *testing.T, shapes []func() *OShape) {
 	cases := readCases(t, func(c *oCase) int { return c.SID })
 	prop := vio.Env("VERIF_PROP", "C01")
 	seed := int64(vio.EnvInt("VERIF_SEED", 1))
+	if prop == "C02" {
+		r.containers()
+	}
 	for _, mk := range shapes {
 		s := mk()
 		c := cases[s.ID]
